@@ -134,13 +134,20 @@ fn c14(ntokens: usize, droppers: usize) {
             }
         })
     }).collect();
-    let flag = Arc::new(Flag { woken: AtomicBool::new(true), wakes: AtomicUsize::new(0) });
+    // every poll hands out a NEW waker identity: only the waker of the most recent poll counts
+    // (Future::poll contract), as if the future were re-polled from another task each time
+    let mut flag = Arc::new(Flag { woken: AtomicBool::new(true), wakes: AtomicUsize::new(0) });
     let mut spins = 0u32;
     let mut ready = false;
     let mut joined = false;
     let mut handles = Some(handles);
+    let mut spurious_left = 1;
     loop {
-        if flag.woken.swap(false, Ordering::SeqCst) {
+        // one spurious re-poll (legal for any future) right after the first poll, with a new waker identity
+        let spurious = spurious_left > 0 && flag.wakes.load(Ordering::SeqCst) == 0 && spins == 1;
+        if spurious { spurious_left -= 1; }
+        if flag.woken.swap(false, Ordering::SeqCst) || spurious {
+            flag = Arc::new(Flag { woken: AtomicBool::new(false), wakes: AtomicUsize::new(0) });
             let w = Waker::from(flag.clone());
             let mut cx = Context::from_waker(&w);
             if fut.as_mut().poll(&mut cx).is_ready() {
@@ -165,6 +172,118 @@ fn c14(ntokens: usize, droppers: usize) {
     }
 }
 
+// ---------------------------------------------------------------- C10: writers on different threads
+
+mod c10 {
+    use super::*;
+    use fastcgi_server::async_io::Request;
+    use fastcgi_server::parser::request;
+    use futures_util::io::{AsyncRead, AsyncWrite};
+    use std::io;
+    use std::sync::Mutex;
+
+    /// Transport that accepts at most `max` bytes per call and appends them to a shared log.
+    pub struct Sink { pub log: Arc<Mutex<Vec<u8>>>, pub max: usize, pub calls: usize }
+    impl AsyncWrite for Sink {
+        fn poll_write(mut self: Pin<&mut Self>, _: &mut Context<'_>, buf: &[u8]) -> Poll<io::Result<usize>> {
+            let n = buf.len().min(self.max).max(1).min(buf.len());
+            self.calls += 1;
+            self.log.lock().unwrap().extend_from_slice(&buf[..n]);
+            Poll::Ready(Ok(n))
+        }
+        fn poll_write_vectored(mut self: Pin<&mut Self>, _: &mut Context<'_>, bufs: &[io::IoSlice<'_>]) -> Poll<io::Result<usize>> {
+            let total: usize = bufs.iter().map(|b| b.len()).sum();
+            // cut positions vary with the call count: inside the header, at the seam, inside the payload
+            let n = total.min(1 + (self.calls * 7) % self.max.max(1));
+            self.calls += 1;
+            let mut left = n;
+            let mut log = self.log.lock().unwrap();
+            for b in bufs {
+                let k = left.min(b.len());
+                log.extend_from_slice(&b[..k]);
+                left -= k;
+                if left == 0 { break; }
+            }
+            Poll::Ready(Ok(n))
+        }
+        fn poll_flush(self: Pin<&mut Self>, _: &mut Context<'_>) -> Poll<io::Result<()>> { Poll::Ready(Ok(())) }
+        fn poll_close(self: Pin<&mut Self>, _: &mut Context<'_>) -> Poll<io::Result<()>> { Poll::Ready(Ok(())) }
+    }
+    pub struct NoInput;
+    impl AsyncRead for NoInput {
+        fn poll_read(self: Pin<&mut Self>, _: &mut Context<'_>, _: &mut [u8]) -> Poll<io::Result<usize>> { Poll::Pending }
+    }
+
+    struct Park { woken: AtomicBool, thread: std::thread::Thread }
+    impl Wake for Park {
+        fn wake(self: Arc<Self>) { self.wake_by_ref(); }
+        fn wake_by_ref(self: &Arc<Self>) { self.woken.store(true, Ordering::SeqCst); self.thread.unpark(); }
+    }
+
+    pub fn run(nwriters: usize, per_writer: usize) {
+        let cfg = Config::with_conns(1.try_into().unwrap());
+        // BeginRequest(id 7, Responder) + empty Params
+        let wire: Vec<u8> = [&[1u8, 1, 0, 7, 0, 8, 0, 0, 0, 1, 0, 0, 0, 0, 0, 0][..], &[1, 4, 0, 7, 0, 0, 0, 0][..]].concat();
+        let mut rp = request::Parser::new(&cfg);
+        rp.input_buffer()[..wire.len()].copy_from_slice(&wire);
+        assert!(rp.parse(wire.len()).done);
+        let sp = rp.into_stream_parser().unwrap();
+        let log = Arc::new(Mutex::new(Vec::new()));
+        let req = Request::new(sp, NoInput, Sink { log: log.clone(), max: 11, calls: 0 });
+        let mut handles = Vec::new();
+        for wi in 0..nwriters {
+            let mut w = req.output_stream(if wi % 2 == 0 { fastcgi_server::protocol::RecordType::Stdout } else { fastcgi_server::protocol::RecordType::Stderr });
+            handles.push(std::thread::spawn(move || {
+                let park = Arc::new(Park { woken: AtomicBool::new(true), thread: std::thread::current() });
+                let waker = Waker::from(park.clone());
+                let mut cx = Context::from_waker(&waker);
+                for k in 0..per_writer {
+                    let len = [1usize, 8, 13, 30][(wi + k) % 4];
+                    let data: Vec<u8> = (0..len).map(|i| (wi as u8) << 6 | (k as u8) << 3 | (i as u8 & 7)).collect();
+                    let mut off = 0;
+                    while off < data.len() {
+                        // strict: poll only when woken
+                        while !park.woken.swap(false, Ordering::SeqCst) { std::thread::park(); }
+                        match Pin::new(&mut w).poll_write(&mut cx, &data[off..]) {
+                            Poll::Ready(Ok(n)) => { off += n; park.woken.store(true, Ordering::SeqCst); }
+                            Poll::Ready(Err(e)) => violation("C10", &format!("write failed: {e}")),
+                            Poll::Pending => {}
+                        }
+                    }
+                }
+                drop(w);
+            }));
+        }
+        for h in handles { h.join().unwrap(); }
+        drop(req);
+        // decode: complete records only, each payload homogeneous in (writer, call) and with the right type and padding
+        let log = log.lock().unwrap();
+        let mut p = 0;
+        let mut seen: Vec<Vec<usize>> = vec![Vec::new(); nwriters];
+        while p < log.len() {
+            if log.len() - p < 8 { violation("C10", "log ends inside a record header"); }
+            let (ver, t, id, cl, pad) = (log[p], log[p + 1], u16::from_be_bytes([log[p + 2], log[p + 3]]), usize::from(u16::from_be_bytes([log[p + 4], log[p + 5]])), usize::from(log[p + 6]));
+            if ver != 1 || id != 7 || !(t == 6 || t == 7) { violation("C10", &format!("malformed record header at {p}: version {ver} type {t} id {id}")); }
+            if pad >= 8 || (cl + pad) % 8 != 0 { violation("C10", "padding rule violated"); }
+            if log.len() - p < 8 + cl + pad { violation("C10", "log ends inside a record"); }
+            let body = &log[p + 8..p + 8 + cl];
+            let wi = usize::from(body[0] >> 6);
+            let k = usize::from((body[0] >> 3) & 7);
+            if wi >= nwriters || (t == 6) != (wi % 2 == 0) { violation("C10", "record type does not match its writer"); }
+            for (i, b) in body.iter().enumerate() {
+                if *b != ((wi as u8) << 6 | (k as u8) << 3 | (i as u8 & 7)) { violation("C10", &format!("record payload mixes bytes of different writes at {}", p + 8 + i)); }
+            }
+            let expect_len = [1usize, 8, 13, 30][(wi + k) % 4];
+            if cl != expect_len { violation("C10", &format!("record of writer {wi} call {k} carries {cl} bytes, written {expect_len}")); }
+            seen[wi].push(k);
+            p += 8 + cl + pad;
+        }
+        for (wi, ks) in seen.iter().enumerate() {
+            if *ks != (0..per_writer).collect::<Vec<_>>() { violation("C10", &format!("writer {wi}: records {ks:?} (order or count wrong)")); }
+        }
+    }
+}
+
 fn main() {
     let args: Vec<String> = std::env::args().collect();
     match args.get(1).map(String::as_str) {
@@ -178,7 +297,11 @@ fn main() {
             c14(2, 2);
             c14(3, 2);
         }
-        _ => { eprintln!("usage: fcgimiri c13|c14"); std::process::exit(2); }
+        Some("c10") => {
+            c10::run(2, 3);
+            c10::run(3, 2);
+        }
+        _ => { eprintln!("usage: fcgimiri c10|c13|c14"); std::process::exit(2); }
     }
     println!("ok");
 }
